@@ -56,7 +56,7 @@ for name, rs in (('round 1 (plausible maintainer mistakes)', r1), ('round 2 (del
             sum('VIOLATION' in r[4] for r in rs), sum('VIOLATION' in r[4] and 'no-failing' not in r[4] for r in rs)))
 if harmless:
     out.append('')
-    out.append('Negative controls – behaviour-preserving refactorings written by an independent sub-agent (rewritten option-parsing loop, option-header helper, `to_be_bytes`-based uint encoder, registry loops, shared scanner for both link parsers, guarded-write helpers, restructured Block1 handling, mask-constant header setters / reordered match arms; session 4: serialiser rebuilt around an iterator and a shared `append_parts`, block handler flattened into early returns with `leading_zeros` arithmetic, header setters with named masks and a lookup table / observe registry with let-else and `retain` passes, decoder with a slice cursor and shared scanners in the link-format parsers; harmless-19…22, evaluated after the D21 fix, the request-object noise variants, the three low-level models and the API-surface tie: observe registry delegating to private helpers on `Observer`/`Resource`, block handler flattened into early returns with four private helpers and index arithmetic instead of `chunks().skip()`, decoder with a cursor type and the serialiser's three unsafe blocks folded into one helper, both link-format scanners merged into one byte-level helper with `strip_prefix`/`split_once`): ' +
+    out.append('Negative controls – behaviour-preserving refactorings written by an independent sub-agent (rewritten option-parsing loop, option-header helper, `to_be_bytes`-based uint encoder, registry loops, shared scanner for both link parsers, guarded-write helpers, restructured Block1 handling, mask-constant header setters / reordered match arms; session 4: serialiser rebuilt around an iterator and a shared `append_parts`, block handler flattened into early returns with `leading_zeros` arithmetic, header setters with named masks and a lookup table / observe registry with let-else and `retain` passes, decoder with a slice cursor and shared scanners in the link-format parsers; harmless-19…22, evaluated after the D21 fix, the request-object noise variants, the three low-level models and the API-surface tie: observe registry delegating to private helpers on `Observer`/`Resource`, block handler flattened into early returns with four private helpers and index arithmetic instead of `chunks().skip()`, decoder with a cursor type and the three unsafe blocks of the serialiser folded into one helper, both link-format scanners merged into one byte-level helper with `strip_prefix`/`split_once`): ' +
                '; '.join('%s: %s' % (h['id'], ', '.join('%s %s' % kv for kv in sorted(h['check_results'].items()))) for h in harmless) + '. No check raised an alarm' + ('.' if all(v == 'OK' for h in harmless for v in h['check_results'].values()) else ' EXCEPT where shown.') + ' (harmless-11 made every check that depends on the translator report `no-failing-input-found` when first evaluated: `set_type`/`get_type` rewritten as a cast and a lookup array were no longer readable; see the translator fallback in §2.2.)')
 p = os.path.join(V, 'DESIGN.md')
 s = open(p).read()
